@@ -1271,6 +1271,10 @@ func (db *DB) Repair(of Object) (err error) {
 		if !uuids[uuid] {
 			// if object is not on disk and is in index
 			s.unindexByUUID(uuid)
+			// a cached copy would still be served by reads
+			gone := reflect.New(typeof(of)).Interface().(Object)
+			gone.Initialize(uuid)
+			db.cache.delete(gone)
 		}
 	}
 
